@@ -16,6 +16,7 @@ import HavocVerif.Driver.C15
 import HavocVerif.Driver.C16
 import HavocVerif.Driver.C17
 import HavocVerif.Driver.C18
+import HavocVerif.Driver.C19
 import HavocVerif.Driver.C20
 /-
   Line-protocol driver.  `driver <property> < ops.txt` prints one verdict per
@@ -51,6 +52,7 @@ def stepperFor (prop : String) : Option Stepper :=
   | "C16" => some ⟨DriverC16.St, {}, DriverC16.step⟩
   | "C17" => some (stateless DriverC17.step)
   | "C18" => some (stateless DriverC18.step)
+  | "C19" => some (stateless DriverC19.step)
   | "C20" => some (stateless DriverC20.step)
   | _ => none
 
